@@ -901,6 +901,33 @@ class Truth:
         return Sub().visit(tree)
 
 
+def check_connective_operators(check, an: Analysis, rule: str):
+    """`a & b` / `a | b` hold both operands in order; an operand of the same kind (and only
+    that: `a & (b | c)` is not `All(a, b, c)`) is flattened (shared with C01, C07)"""
+    # & and |
+    for qn, name, cls_name in ((CONDITION, '__and__', 'All'), (CONDITION, '__or__', 'Any'),
+                               (ALL, '__and__', 'All'), (ANY, '__or__', 'Any')):
+        method = an.method(qn, name)
+        param = method.node.args.args[1].arg
+        mine = '*self._children' if qn != CONDITION else 'self'
+        forms = returned_forms(an, an.callee(qn, name),
+                               (ALL,) if cls_name == 'All' else (ANY,))
+        ok, seen = bool(forms), set()
+        for atoms, text, _node, _path in forms:
+            same = atoms.get(('truth', 'isinstance(%s, %s)' % (param, cls_name)))
+            seen.add(same)
+            if same is True:
+                ok &= text == '%s(%s, *%s._children)' % (cls_name, mine, param)
+            elif same is False:
+                ok &= text == '%s(%s, %s)' % (cls_name, mine, param)
+            else:
+                ok = False
+        check.instance(rule, '%s.%s' % (qn.rsplit('.', 1)[-1], name),
+                       ok and seen == {True, False}, where_fn(method),
+                       'both operands in order; a same-kind operand (and only that) is '
+                       'flattened: %s' % sorted({t for _a, t, _n, _p in forms}))
+
+
 def _check_algebra(check, an: Analysis, classes):
     truth = Truth(an)
     # pure __bool__
@@ -1046,28 +1073,7 @@ def _check_algebra(check, an: Analysis, classes):
                            'AsyncComparison(self, operator.%s, %s)' % (op, param))
         check.instance('B', 'Tracked.%s' % name, ok, where_fn(method),
                        'builds the comparison with its own operator')
-    # & and |
-    for qn, name, cls_name in ((CONDITION, '__and__', 'All'), (CONDITION, '__or__', 'Any'),
-                               (ALL, '__and__', 'All'), (ANY, '__or__', 'Any')):
-        method = an.method(qn, name)
-        param = method.node.args.args[1].arg
-        mine = '*self._children' if qn != CONDITION else 'self'
-        forms = returned_forms(an, an.callee(qn, name),
-                               (ALL,) if cls_name == 'All' else (ANY,))
-        ok, seen = bool(forms), set()
-        for atoms, text, _node, _path in forms:
-            same = atoms.get(('truth', 'isinstance(%s, %s)' % (param, cls_name)))
-            seen.add(same)
-            if same is True:
-                ok &= text == '%s(%s, *%s._children)' % (cls_name, mine, param)
-            elif same is False:
-                ok &= text == '%s(%s, %s)' % (cls_name, mine, param)
-            else:
-                ok = False
-        check.instance('B', '%s.%s' % (qn.rsplit('.', 1)[-1], name),
-                       ok and seen == {True, False}, where_fn(method),
-                       'both operands in order; a same-kind operand (and only that) is '
-                       'flattened: %s' % sorted({t for _a, t, _n, _p in forms}))
+    check_connective_operators(check, an, 'B')
     # a comparison of the clock with a date is a condition *object* for that date: its
     # truth follows the clock afterwards (shared with C01)
     c01.check_time_operators(check, an, 'B')
